@@ -170,6 +170,34 @@ def eval_corpus_rewrite(args):
         shutil.rmtree(d, ignore_errors=True)
 
 
+def run_long(chk):
+    """A program of 1,500 statements (the statement kinds of Lexer.tla without labels) in a compact layout (12 KB) and in commented /
+    spaced layouts (20 - 70 KB, over several include files as well): RoundTrip says the layout carries no meaning, so every layout
+    assembles to Bytes(P)."""
+    n = 1500
+    vals = [(k * 7 + 3) % 256 for k in range(n)]
+    want = b''.join(bytes([168, v]) for v in vals)
+    compact = ''.join(f'ld8 {v}\n' for v in vals)
+    commented = ''.join(f'\tld8\t{v}\t; statement number {k}, a comment with "quotes"\n\n' for k, v in enumerate(vals))
+    joined = ''.join('  '.join(f'ld8 {v}' for v in vals[k:k + 6]) + '   ; six on a line\n' for k in range(0, n, 6))
+    half = n // 2
+    split = {'main.asm': '#include "first.asm"\n; the second half\n#include "second.asm"\n',
+             'first.asm': ''.join(f'    ld8 {v}      ; {k}\n' for k, v in enumerate(vals[:half])),
+             'second.asm': ''.join(f'    ld8 {v}      ; {k}\n\n\n' for k, v in enumerate(vals[half:]))}
+    for name, files in (('compact', {'main.asm': compact}), ('commented', {'main.asm': commented}), ('six per line', {'main.asm': joined}), ('two includes', split)):
+        case = {'config': carrier_yaml(), 'files': files, 'timeout': 120.0}
+        obs = runner.run_case(case)
+        chk.traces += 1
+        chk.nontriv(('long', name))
+        size = sum(len(t) for t in files.values())
+        if obs['status'] != 'ok':
+            chk.violation(f'long program ({name} layout, {size} bytes of source) rejected: {(obs.get("msg") or "")[:120]}', {'layout': name}, 'ok', obs['status'], {'kind': 'long'})
+        elif obs['image'] != want:
+            chk.violation(f'long program ({name} layout, {size} bytes of source): image of {len(obs["image"])} bytes, the {n} statements assemble to {len(want)} bytes',
+                          {'layout': name}, len(want), len(obs['image']), {'kind': 'long'})
+    chk.notes['long_program_statements'] = n
+
+
 def run_corpus(chk):
     import os
     from harness import corpus
@@ -216,4 +244,5 @@ def run(chk):
         e = emits[len(emits) // 2]
         chk.sample({'instance': tag, 'text': spell(e['items']), 'bytes': e['bytes']})
     run_corpus(chk)
+    run_long(chk)
     chk.exhaustive = not quick
